@@ -571,9 +571,11 @@ def execute_plan(prop, plan, env, recorded=None):
             client.fault_at = -2
             client.pending_ctor_offset = f['step']
     policy.on_op_start = on_op_start
-    sched = baton.Baton(clients, policy, step_cap=ctx.get('step_cap', 5_000_000), hang_s=ctx.get('hang_s', 900))
+    sched = baton.Baton(clients, policy, step_cap=ctx.get('step_cap', 5_000_000), hang_s=ctx.get('hang_s', 300))
     env.sched = sched
     barrier.STATE['sched'] = sched
+    from . import simlock
+    simlock.STATE['sched'] = sched
     sched.dirty_probe = barrier.container_dirty
     barrier.rebase()
     hits0 = barrier.STATE['hits']
@@ -615,6 +617,7 @@ def execute_plan(prop, plan, env, recorded=None):
     finally:
         env.sched = None
         barrier.STATE['sched'] = None
+        simlock.STATE['sched'] = None
         sys.settrace(None)
     faulted = {(f[0], f[1]) for f in sched.faults_fired if f[3] not in ('stall', 'dirty-stall')}
     violations = []
@@ -644,11 +647,15 @@ def execute_plan(prop, plan, env, recorded=None):
                     continue
                 v.update({'cid': c.cid, 'op_idx': i, 'op': op})
                 violations.append(v)
+    if sched.deadlock and prop == 'C02':
+        violations.append({'prop': 'C02', 'class': 'C02|deadlock', 'cid': 0, 'op_idx': 0, 'op': clients[0].ops[0] if clients[0].ops else {},
+                           'failure': {'kind': 'deadlock', 'site': sched.deadlock,
+                                       'detail': 'every simulated caller was waiting for a library lock held by another waiting caller'}})
     ctor_delta = {('%s|%s' % k): env.ctor_count[k] - ctor0.get(k, 0) for k in env.ctor_count if env.ctor_count[k] != ctor0.get(k, 0)}
     record = {
         'first': sched.first_cid, 'cache_keys': cache_keys,
         'switches': sched.switches, 'finishes': sched.finishes, 'faults_fired': sched.faults_fired,
-        'steps': sched.global_step, 'barrier_hits': barrier.STATE['hits'] - hits0, 'dirty_hits': sched.dirty_hits, 'capped': sched.capped,
+        'steps': sched.global_step, 'barrier_hits': barrier.STATE['hits'] - hits0, 'dirty_hits': sched.dirty_hits, 'lock_switches': sched.lock_switches, 'capped': sched.capped,
         'results': results, 'ctor': ctor_delta, 'sites': sorted(sched.sites),
         'divergent': getattr(policy, 'divergent', 0),
     }
@@ -788,6 +795,7 @@ def run_batch(job):
         rep['switches'] += len(record['switches'])
         rep['barrier_hits'] += record['barrier_hits']
         rep['dirty_hits'] = rep.get('dirty_hits', 0) + record['dirty_hits']
+        rep['lock_switches'] = rep.get('lock_switches', 0) + record['lock_switches']
         rep['capped'] += int(record['capped'])
         rep['cold_runs'] += int(bool(plan['cold']))
         rep['sched_kinds'][plan['sched']['kind']] = rep['sched_kinds'].get(plan['sched']['kind'], 0) + 1
